@@ -117,6 +117,9 @@ theorem lookupArr_eq_lookupEnv (i : Idx) (env : List (String × Arr Val)) (n : S
 
 /-! ### operands -/
 
+theorem isFill_cases {c : SExpr} (h : isFill c = true) : isLit c = true ∨ c = .nan := by
+  cases c <;> simp_all [isFill, isLit]
+
 theorem litVal_eq (i : Idx) (env : List (String × Arr Val)) (c : SExpr) (h : isLit c = true ∨ c = .nan) :
     litVal c = eval (idxEnv i env) c := by
   rcases h with h | h
